@@ -11,6 +11,7 @@ package main
 
 import (
 	"fmt"
+	"sort"
 	"go/token"
 	"go/types"
 	"strings"
@@ -43,6 +44,11 @@ type avals struct{ cells []*aobj }
 
 // amap: a reference to a map keyed by the normal form of abstract values.
 type amap struct{ m *amapData }
+type amapIter struct {
+	m    amap
+	keys []string
+	i    int
+}
 type amapData struct {
 	vals map[string]aval
 	keys map[string]aval
@@ -864,6 +870,29 @@ func (e *absEnv) instrStr(fr *absFrame, in ssa.Instruction) bool {
 			}
 		case anil:
 			fr.regs[t] = anil{}
+			return true
+		}
+		return false
+	case *ssa.Range:
+		if m, ok := e.val(fr, t.X).(amap); ok {
+			var keys []string
+			for k := range m.m.vals {
+				keys = append(keys, k)
+			}
+			sort.Strings(keys)
+			fr.regs[t] = &amapIter{m: m, keys: keys}
+			return true
+		}
+		return false
+	case *ssa.Next:
+		if it, ok := e.val(fr, t.Iter).(*amapIter); ok {
+			if it.i >= len(it.keys) {
+				fr.regs[t] = atuple{abool(false), zeroOf(it.m.m.typ.Key()), zeroOf(it.m.m.typ.Elem())}
+				return true
+			}
+			k := it.keys[it.i]
+			it.i++
+			fr.regs[t] = atuple{abool(true), it.m.m.keys[k], it.m.m.vals[k]}
 			return true
 		}
 		return false
